@@ -31,6 +31,17 @@ func genMux(seed uint64, n int, maxOps int, demux bool, emit func(interface{})) 
 	for s := 0; s < n; s++ {
 		sc := muxScenario{SID: fmt.Sprintf("mr-%d-%d", seed, s), Kind: "mux", Seed: r.u64() >> 1, Demux: demux}
 		sc.Period = r.pick(1, 2, 3, 5, 40, r.rangeInt(1, 50))
+		sc.Reuse = s%2 == 1
+		if s%12 == 5 {
+			genMuxSweep(r, &sc, demux)
+			emit(sc)
+			continue
+		}
+		if s%12 == 9 {
+			genMuxChurn(r, &sc)
+			emit(sc)
+			continue
+		}
 		nops := r.rangeInt(3, maxOps)
 		var live []int // pids as addressed in the scenario (explicit or -k)
 		autoN := 0
@@ -42,7 +53,7 @@ func genMux(seed uint64, n int, maxOps int, demux bool, emit func(interface{})) 
 			x := r.intn(100)
 			switch {
 			case len(live) == 0 || x < 8 || (churn && x < 35):
-				op := muxOp{Op: "add", ST: muxStreamTypes[r.intn(len(muxStreamTypes))], DK: r.pickS("none", "none", "si", "ud3", "ud10", "both", "none", "si", "ud3", "ud10", "both", "ud170")}
+				op := muxOp{Op: "add", ST: muxStreamTypes[r.intn(len(muxStreamTypes))], DK: r.pickS("none", "none", "si", "ud3", "ud10", "both", "none", "si", "ud3", "ud10", "both", "ud170", "ud160", "ud161", "ud159")}
 				if r.intn(3) == 0 {
 					op.PID = 0
 					autoN++
@@ -78,14 +89,14 @@ func genMux(seed uint64, n int, maxOps int, demux bool, emit func(interface{})) 
 			case x < 25 || (churn && x < 75):
 				sc.Ops = append(sc.Ops, muxOp{Op: "tables"})
 			case x < 28:
-				sc.Ops = append(sc.Ops, muxOp{Op: "packet", Kind: r.pickS("null", "short", "pcr", "toobig", "toobigaf")})
+				sc.Ops = append(sc.Ops, muxOp{Op: "packet", Kind: r.pickS("null", "short", "pcr", "toobig", "toobigaf", "nopltoobig")})
 			case x < 30:
 				sc.Ops = append(sc.Ops, muxOp{Op: "data", PID: 999, Len: 10, Hdr: "pts", AF: "none"})
 			default:
 				hdr := muxHdrClasses[r.intn(len(muxHdrClasses))]
 				af := muxAFClasses[r.intn(len(muxAFClasses))]
-				if !demux && r.intn(40) == 0 {
-					af = "big"
+				if !demux && r.intn(30) == 0 {
+					af = r.pickS("big", "bigrai")
 				}
 				op := muxOp{Op: "data", PID: live[r.intn(len(live))], Hdr: hdr, AF: af}
 				op.Len = boundaryLen(r, hdr, af, false)
@@ -154,5 +165,44 @@ func genMuxFault(seed uint64, n int, maxOps int, emit func(interface{})) {
 				emit(sc)
 			}
 		}
+	}
+}
+
+// genMuxSweep: a long life of one Muxer with thousands of automatic PID assignments (the assignment cursor crosses the PMT PID
+// 0x1000 and explicitly added PIDs on its way), then ordinary traffic on the streams that remain
+func genMuxSweep(r *rng, sc *muxScenario, demux bool) {
+	sc.Ops = append(sc.Ops, muxOp{Op: "add", PID: 0x0fff, ST: 15, DK: "none"}, muxOp{Op: "setpcr", PID: 0x0fff})
+	n := 0
+	for i := 0; i < 3860; i++ {
+		sc.Ops = append(sc.Ops, muxOp{Op: "add", PID: 0, ST: 27, DK: "none"})
+		n++
+		if i < 3836 {
+			sc.Ops = append(sc.Ops, muxOp{Op: "remove", PID: -n})
+		} else {
+			sc.Ops = append(sc.Ops, muxOp{Op: "data", PID: -n, Len: r.rangeInt(1, 300), Hdr: "pts", AF: "none"})
+		}
+		if i == 3838 || i == 3845 {
+			sc.Ops = append(sc.Ops, muxOp{Op: "tables"})
+		}
+	}
+	sc.Ops = append(sc.Ops, muxOp{Op: "tables"}, muxOp{Op: "data", PID: 0x0fff, Len: 200, Hdr: "pts", AF: "pcr"})
+}
+
+// genMuxChurn: many distinct PIDs are added, written, removed and added again much later (what a long-running re-multiplexer does)
+func genMuxChurn(r *rng, sc *muxScenario) {
+	pool := 70 + r.intn(30)
+	pid := func(k int) int { return 0x200 + k }
+	sc.Ops = append(sc.Ops, muxOp{Op: "add", PID: 0x100, ST: 27, DK: "none"}, muxOp{Op: "setpcr", PID: 0x100})
+	for k := 0; k < pool; k++ {
+		sc.Ops = append(sc.Ops, muxOp{Op: "add", PID: pid(k), ST: 15, DK: "none"})
+		for j, n := 0, r.rangeInt(1, 3); j < n; j++ {
+			sc.Ops = append(sc.Ops, muxOp{Op: "data", PID: pid(k), Len: r.rangeInt(1, 400), Hdr: "pts", AF: "none"})
+		}
+		sc.Ops = append(sc.Ops, muxOp{Op: "remove", PID: pid(k)})
+	}
+	for _, k := range []int{0, 1, 2, pool / 2, pool - 1} {
+		sc.Ops = append(sc.Ops, muxOp{Op: "add", PID: pid(k), ST: 15, DK: "none"},
+			muxOp{Op: "data", PID: pid(k), Len: r.rangeInt(1, 400), Hdr: "pts", AF: "none"},
+			muxOp{Op: "data", PID: pid(k), Len: r.rangeInt(1, 400), Hdr: "pts", AF: "none"})
 	}
 }
